@@ -316,7 +316,7 @@ fn independent_window_after(sn: &VerifSnapshot, seg: &Segment) -> Option<u16> {
     }
     // segments of the legitimate peer waiting behind a hole are processed in the same call
     // once the injected segment fills it, and the last of *them* sets the window
-    if sn.incoming_segments != 0 {
+    if sn.incoming_ack_segments != 0 {
         return None;
     }
     let h = &seg.header;
@@ -467,7 +467,9 @@ fn inject(cfg: &Cfg, victim: &Sys, side: usize, ix: &[usize]) -> InjectOutcome {
     // RFC 9293 3.10.7.4, SYN-RECEIVED: the segment whose ACK moves the endpoint to ESTABLISHED
     // sets SND.WND unconditionally - whatever rule made the endpoint accept it
     let wnd_ref = match (sn.state, n.side[side].snap().map(|x| x.state)) {
-        (State::SynReceived, Some(State::Established)) if seg.header.ctl.ack() && sn.incoming_segments == 0 => {
+        // (the SYN itself, with its SYN and ACK bits cleared, waits in the queue of a passively
+        // opened endpoint; it carries no acknowledgment and cannot set a window)
+        (State::SynReceived, Some(State::Established)) if seg.header.ctl.ack() && sn.incoming_ack_segments == 0 => {
             Some(seg.header.wnd)
         }
         _ => wnd_ref,
